@@ -55,7 +55,8 @@ def finish(pid, tier, t0, findings, obligations, samples, explanation, rule_text
             kf.append((known_keys[k], f))
         else:
             viol.append(f)
-    vdir = os.path.join(VERIF, "evidence", "violations")
+    no_ev = bool(os.environ.get("FONTC_VERIF_NO_EVIDENCE"))
+    vdir = os.path.join(VERIF, "evidence", "violations") if not no_ev else os.path.join(VERIF, ".cache", "mutant-violations")
     os.makedirs(vdir, exist_ok=True)
     for fn in os.listdir(vdir):
         if fn.startswith(pid + "-"):
@@ -101,9 +102,10 @@ def finish(pid, tier, t0, findings, obligations, samples, explanation, rule_text
         "wall_s": round(time.time() - t0, 2),
         "violations": len(viol),
     }
-    os.makedirs(os.path.join(VERIF, "evidence"), exist_ok=True)
-    with open(os.path.join(VERIF, "evidence", f"{pid}.json"), "w") as fh:
-        json.dump(ev, fh, indent=1, default=str)
+    if not no_ev:
+        os.makedirs(os.path.join(VERIF, "evidence"), exist_ok=True)
+        with open(os.path.join(VERIF, "evidence", f"{pid}.json"), "w") as fh:
+            json.dump(ev, fh, indent=1, default=str)
     print(f"[{pid}] tier={tier} obligations={len(obligations)} discharged={n_ok} known-findings={len(kf)} violations={len(viol)} wall={ev['wall_s']}s")
     if replay_key is not None:
         hit = [f for f in viol if f["key"] == replay_key] + [f for e, f in kf if f["key"] == replay_key]
